@@ -282,6 +282,8 @@ def cfl_file(rng, structured, rich=True, n_items=None, features=None, configured
     pending_line = None
     nl = rng.choice(["\n", "\n", "\n", "\r\n"])
     last_stmt_line = None
+    if rng.random() < 0.05:
+        out.add("\ufeff")                                    # a byte-order mark at the start of the file
     for _ in range(n_items):
         kind = rng.choice(sorted(feats))
         indent = rng.choice(["", "    ", "\t", "        "])
